@@ -58,4 +58,69 @@ def Client.setPublicKey (H : PK → ID) (_c : Client PK ID) (pk : PK) : Client P
 def Client.validate [DecidableEq ID] (H : PK → ID) (c : Client PK ID) : Bool := decide (c.id = H c.publicKey)
 
 end ClientId
+
+/-! ### the id as a STRING
+
+`Client.ID`, state keys and cache keys are the exact string `encryption.Hash(publicKeyBytes)`: 64 lower-case hex digits.
+Every entry point that is handed a `(public key, client id)` pair — `encryption.VerifyPublicKeyClientID`,
+`Transaction.ComputeClientID` / `ComputeProperties`, `Client.Validate`, the storage `ValidationTicket.Validate` —
+compares **strings** (`Hash(pk) != clientID`). `hashHex` is the uninterpreted hash rendered as that string. -/
+section IdString
+
+def isLowerHex (c : Char) : Bool := ('0' ≤ c && c ≤ '9') || ('a' ≤ c && c ≤ 'f')
+
+/-- the canonical form of an id: exactly 64 lower-case hex digits. -/
+def CanonicalId (s : String) : Prop := s.toList.length = 64 ∧ s.toList.all isLowerHex = true
+
+/-- the pair check as coded: string equality with the hash string. -/
+def idOk {PK : Type} (hashHex : PK → String) (pk : PK) (id : String) : Bool := decide (id = hashHex pk)
+
+/-- value of a hex digit, **either case** — what `hex.DecodeString` does. -/
+def hexVal (c : Char) : Option Nat :=
+  if '0' ≤ c ∧ c ≤ '9' then some (c.toNat - '0'.toNat)
+  else if 'a' ≤ c ∧ c ≤ 'f' then some (c.toNat - 'a'.toNat + 10)
+  else if 'A' ≤ c ∧ c ≤ 'F' then some (c.toNat - 'A'.toNat + 10)
+  else none
+
+/-- `hex.DecodeString`: an even number of hex digits of either case (the digit values, two per byte). -/
+def hexDecode (s : String) : Option (List Nat) :=
+  if s.toList.length % 2 = 0 then s.toList.mapM hexVal else none
+
+/-- the check one must NOT make: decode both sides and compare bytes. -/
+def idOkDecoded {PK : Type} (hashHex : PK → String) (pk : PK) (id : String) : Bool :=
+  match hexDecode id with
+  | some b => decide (some b = hexDecode (hashHex pk))
+  | none => false
+
+/-! spellings of an id a byzantine sender can try (named so that a line protocol can ask for them). -/
+def isLowerLetter (c : Char) : Bool := 'a' ≤ c && c ≤ 'f'
+def upperChar (c : Char) : Char := if isLowerLetter c then Char.ofNat (c.toNat - 32) else c
+
+/-- upper-case the first letter at or after position `k` (nothing if there is none). -/
+def flipFrom : Nat → List Char → List Char
+  | _, [] => []
+  | 0, c :: cs => if isLowerLetter c then upperChar c :: cs else c :: flipFrom 0 cs
+  | k + 1, c :: cs => c :: flipFrom k cs
+
+def flipLast (l : List Char) : List Char := (flipFrom 0 l.reverse).reverse
+
+def spelling (variant : String) (id : String) : Option String :=
+  let l := id.toList
+  match variant with
+  | "canon" => some id
+  | "upper" => some (String.ofList (l.map upperChar))
+  | "flipfirst" => some (String.ofList (flipFrom 0 l))
+  | "flipmid" => some (String.ofList (flipFrom 32 l))
+  | "fliplast" => some (String.ofList (flipLast l))
+  | "0x" => some ("0x" ++ id)
+  | "sptrail" => some (id ++ " ")
+  | "splead" => some (" " ++ id)
+  | "d63" => some (String.ofList (l.drop 1))
+  | "odd" => some (String.ofList l.dropLast)
+  | "d65" => some (id ++ "0")
+  | "d65b" => some ("0" ++ id)
+  | "d62" => some (String.ofList (l.drop 2))
+  | _ => none
+
+end IdString
 end ZChain.Sig
